@@ -38,10 +38,21 @@ static const char * const texts[] = { "", "abc", "a\"b", "\"", "\"\"", "semi;col
 static const char * const mnems[] = { "ABC", "MIN", "X1_Y", "0", "VOLT" };
 static const char blockdata[] = "\n;\",#0\x00\xff\x80 abcdefghijklmnopqrstuvwxyz0123456789";
 
+static uint16_t long_array[700];
 static void gen_out(vh_rng_t * rng, vh_out_t * o, vh_buf_t * exp) {
     static const int bases[] = { 10, 16, 8, 2 };
     uint64_t r = vh_rand(rng) >> vh_below(rng, 64);
     memset(o, 0, sizeof *o);
+    if (vh_below(rng, 50) == 0) {
+        /* one handler may emit hundreds of items (ASCII array result): item counts beyond the range of small integer types */
+        static const int ns[] = { 255, 256, 257, 300, 511, 512, 513, 600, 1, 2 };
+        int n = ns[vh_below(rng, 10)], i;
+        if (!long_array[1]) for (i = 0; i < 700; i++) long_array[i] = (uint16_t) ((i * 7) & 0x3ff);
+        o->kind = VO_ARR_UINT16; o->fmt = SCPI_FORMAT_ASCII; o->data = (const char *) long_array; o->len = (size_t) n * 2;
+        for (i = 0; i < n; i++) { if (i) vh_buf_addc(exp, ','); enc_unsigned(exp, long_array[i], 10); }
+        vh_count("items.long_ascii_array", 1);
+        return;
+    }
     switch (vh_below(rng, 14)) {
         case 0: o->kind = VO_INT32; o->u = (uint64_t) (int64_t) (int32_t) r; enc_signed(exp, (int32_t) r); break;
         case 1: o->kind = VO_UINT32; o->base = (int8_t) bases[vh_below(rng, 4)]; o->u = (uint32_t) r; enc_unsigned(exp, (uint32_t) r, o->base); break;
@@ -225,7 +236,7 @@ static void p0_run(uint64_t idx, vh_rng_t * rng) {
 
 int main(int argc, char ** argv) {
     static const vh_phase_t phases[] = { { "messages", p0_count, p0_run } };
-    vh_require("msg.with_response"); vh_require("msg.nothing_responds"); vh_require("msg.two_or_more_responders");
+    vh_require("items.long_ascii_array"); vh_require("msg.with_response"); vh_require("msg.nothing_responds"); vh_require("msg.two_or_more_responders");
     vh_require("shape.responder_then_silent_unit"); vh_require("shape.silent_unit_then_responder"); vh_require("shape.fails_after_partial_output");
     vh_require("shape.query_emitting_nothing"); vh_require("shape.query_failing_before_output"); vh_require("shape.single_partial_failure");
     return vh_main(argc, argv, "C06", phases, 1);
